@@ -265,3 +265,269 @@ pub proof fn lemma_coherence_along_history<T: Eq + PartialOrd + Send + Sync, A: 
         lemma_name_sets_preserved_by_add_edge(prev, es[k - 1], cur, Ok(()));
     }
 }
+
+// ---- the name-keyed edge store `edges` (read by get_all_edges, per-node edge lists, size, degrees) mirrors the position-keyed one ----
+// assumption on the node-name type used only here (true for every lawful Ord): of two different names exactly one is greater
+pub open spec fn name_order_total<T: Eq + PartialOrd>() -> bool {
+    forall|a: T, b: T| a != b ==> (#[trigger] tgt(a, b) != tgt(b, a))
+}
+
+impl<T: Eq + PartialOrd + Send + Sync, A: Clone> Graph<T, A> {
+    // the name key under which the edges between positions (u, v) are filed: as given when directed, name-ordered when undirected
+    pub open spec fn form_key(&self, u: usize, v: usize) -> (T, T) {
+        let a = self.name_of(u);
+        let b = self.name_of(v);
+        if !self.specs.directed && tgt(a, b) { (b, a) } else { (a, b) }
+    }
+
+    pub open spec fn wf_name_store(&self) -> bool {
+        // every stored pair: all its edges carry the names of form_key, and `edges` holds the same list under that key
+        &&& forall|u: usize, v: usize| #[trigger] self.has_pair(u, v) ==> ({
+                &&& forall|k: int| 0 <= k < self.pair_list(u, v).len() ==>
+                        ((#[trigger] self.pair_list(u, v)[k]).u, self.pair_list(u, v)[k].v) == self.form_key(u, v)
+                &&& self.edges@.contains_key(self.form_key(u, v))
+                &&& self.name_list(self.form_key(u, v)) == self.pair_list(u, v)
+            })
+        // no orphan key in `edges`
+        &&& forall|k: (T, T)| #[trigger] self.edges@.contains_key(k) ==> ({
+                &&& self.knows(k.0) && self.knows(k.1)
+                &&& self.linked(self.pos(k.0), self.pos(k.1))
+                &&& self.form_key(self.canon(self.pos(k.0), self.pos(k.1)).0, self.canon(self.pos(k.0), self.pos(k.1)).1) == k
+            })
+    }
+}
+
+// the name key of the edge being stored is the form_key of its canonical position pair
+pub proof fn lemma_stored_key_names<T: Eq + PartialOrd + Send + Sync, A: Clone>(pre: Graph<T, A>, e: Edge<T, A>, post: Graph<T, A>, r: Result<(), Error>)
+    requires
+        pre.wf_nodes(), pre.wf_estore(),
+        add_edge_rel(pre, e, post, r),
+        pre.stores(e),
+        name_order_total::<T>(),
+    ensures
+        ({
+            let c = stored_key(post, e);
+            let se = pre.stored_form(e);
+            (se.u, se.v) == post.form_key(c.0, c.1)
+        }),
+{
+    lemma_existed_is_pair(pre, e, post, r);
+    lemma_positions_kept(pre, e, post, r, e.u);
+    lemma_positions_kept(pre, e, post, r, e.v);
+    let iu = post.nodes_map@[e.u];
+    let iv = post.nodes_map@[e.v];
+    assert(post.name_of(iu) == e.u && post.name_of(iv) == e.v);
+    let c = stored_key(post, e);
+    if !pre.specs.directed && iu > iv {
+        assert(c == (iv, iu));
+        if e.u != e.v {
+            assert(tgt(e.u, e.v) != tgt(e.v, e.u));
+        }
+    }
+}
+
+// form_key determines the canonical pair
+pub proof fn lemma_form_key_injective<T: Eq + PartialOrd + Send + Sync, A: Clone>(g: Graph<T, A>, u: usize, v: usize, u2: usize, v2: usize)
+    requires
+        g.wf_nodes(),
+        u < g.n() && v < g.n() && u2 < g.n() && v2 < g.n(),
+        !g.specs.directed ==> u <= v && u2 <= v2,
+        g.form_key(u, v) == g.form_key(u2, v2),
+    ensures
+        u == u2 && v == v2,
+{
+    assert(g.nodes_map@[g.nodes_vec@[u as int].name] == u);
+    assert(g.nodes_map@[g.nodes_vec@[v as int].name] == v);
+    assert(g.nodes_map@[g.nodes_vec@[u2 as int].name] == u2);
+    assert(g.nodes_map@[g.nodes_vec@[v2 as int].name] == v2);
+}
+
+// [C02.coherence.name_store_preserved_by_add_edge]
+pub proof fn lemma_name_store_preserved_by_add_edge<T: Eq + PartialOrd + Send + Sync, A: Clone>(pre: Graph<T, A>, e: Edge<T, A>, post: Graph<T, A>, r: Result<(), Error>)
+    requires
+        pre.wf_nodes(), pre.wf_estore(), pre.wf_name_store(),
+        name_order_total::<T>(),
+        add_edge_rel(pre, e, post, r),
+    ensures
+        post.wf_name_store(),
+{
+    if !pre.stores(e) {
+        assert(post == pre);
+    } else {
+        lemma_existed_is_pair(pre, e, post, r);
+        lemma_stored_key_names(pre, e, post, r);
+        let c = stored_key(post, e);
+        let se = pre.stored_form(e);
+        let k = (se.u, se.v);
+        let ex = pre.existed(e);
+        lemma_canon_fix(post, c.0, c.1);
+        assert(post.n() >= pre.n());
+        // names of old positions are unchanged, so form_key of an old pair is unchanged
+        assert forall|u: usize, v: usize| u < pre.n() && v < pre.n() implies #[trigger] post.form_key(u, v) == pre.form_key(u, v) by {
+            assert(post.nodes_vec@[u as int] == pre.nodes_vec@[u as int]);
+            assert(post.nodes_vec@[v as int] == pre.nodes_vec@[v as int]);
+        }
+        assert forall|u: usize, v: usize| #[trigger] post.has_pair(u, v) implies ({
+                &&& forall|j: int| 0 <= j < post.pair_list(u, v).len() ==>
+                        ((#[trigger] post.pair_list(u, v)[j]).u, post.pair_list(u, v)[j].v) == post.form_key(u, v)
+                &&& post.edges@.contains_key(post.form_key(u, v))
+                &&& post.name_list(post.form_key(u, v)) == post.pair_list(u, v)
+            }) by {
+            if u != c.0 || v != c.1 {
+                assert(pre.has_pair(u, v));
+                assert(u < pre.n() && v < pre.n());
+                assert(post.pair_list(u, v) == pre.pair_list(u, v));
+                assert(post.form_key(u, v) == pre.form_key(u, v));
+                // a different pair is filed under a different name key
+                if post.form_key(u, v) == k {
+                    assert(post.wf_estore());
+                    lemma_form_key_injective(post, u, v, c.0, c.1);
+                }
+                assert(post.name_list(pre.form_key(u, v)) == pre.name_list(pre.form_key(u, v)));
+                assert(pre.edges@.contains_key(pre.form_key(u, v)));
+                assert(post.name_list(pre.form_key(u, v)).len() > 0);
+            } else {
+                assert(post.form_key(c.0, c.1) == k);
+                if ex {
+                    assert(pre.has_pair(c.0, c.1));
+                    assert(c.0 < pre.n() && c.1 < pre.n());
+                    assert(pre.form_key(c.0, c.1) == k);
+                    assert(pre.name_list(k) == pre.pair_list(c.0, c.1));
+                } else {
+                    // the key was not in `edges` before: it would name a stored pair with this very form_key
+                    if pre.edges@.contains_key(k) {
+                        let p0 = pre.pos(k.0);
+                        let p1 = pre.pos(k.1);
+                        let cc = pre.canon(p0, p1);
+                        assert(pre.has_pair(cc.0, cc.1));
+                        assert(cc.0 < pre.n() && cc.1 < pre.n());
+                        assert(post.form_key(cc.0, cc.1) == pre.form_key(cc.0, cc.1));
+                        assert(post.has_pair(cc.0, cc.1) || (cc.0 == c.0 && cc.1 == c.1));
+                        lemma_form_key_injective(post, cc.0, cc.1, c.0, c.1);
+                    }
+                    assert(pre.name_list(k).len() == 0);
+                }
+                assert(post.name_list(k) =~= post.pair_list(c.0, c.1));
+            }
+        }
+        assert forall|k2: (T, T)| #[trigger] post.edges@.contains_key(k2) implies ({
+                &&& post.knows(k2.0) && post.knows(k2.1)
+                &&& post.linked(post.pos(k2.0), post.pos(k2.1))
+                &&& post.form_key(post.canon(post.pos(k2.0), post.pos(k2.1)).0, post.canon(post.pos(k2.0), post.pos(k2.1)).1) == k2
+            }) by {
+            lemma_positions_kept(pre, e, post, r, e.u);
+            lemma_positions_kept(pre, e, post, r, e.v);
+            if k2 == k {
+                let iu = post.nodes_map@[e.u];
+                let iv = post.nodes_map@[e.v];
+                assert((k.0 == e.u && k.1 == e.v) || (k.0 == e.v && k.1 == e.u));
+                assert(post.canon(post.pos(k.0), post.pos(k.1)) == c);
+            } else {
+                assert(post.name_list(k2) == pre.name_list(k2));
+                assert(pre.edges@.contains_key(k2));
+                lemma_pre_known_stays_known(pre, e, post, r, k2.0);
+                lemma_pre_known_stays_known(pre, e, post, r, k2.1);
+                lemma_positions_kept(pre, e, post, r, k2.0);
+                lemma_positions_kept(pre, e, post, r, k2.1);
+                let cc = pre.canon(pre.pos(k2.0), pre.pos(k2.1));
+                assert(post.canon(post.pos(k2.0), post.pos(k2.1)) == cc);
+                assert(pre.has_pair(cc.0, cc.1));
+                assert(cc.0 < pre.n() && cc.1 < pre.n());
+                assert(post.form_key(cc.0, cc.1) == pre.form_key(cc.0, cc.1));
+                if cc.0 == c.0 && cc.1 == c.1 {
+                } else {
+                    assert(post.has_pair(cc.0, cc.1) == pre.has_pair(cc.0, cc.1));
+                }
+            }
+        }
+    }
+}
+
+// [C02.coherence.name_store_preserved_by_add_node]
+pub proof fn lemma_name_store_preserved_by_add_node<T: Eq + PartialOrd + Send + Sync, A: Clone>(pre: Graph<T, A>, post: Graph<T, A>)
+    requires
+        pre.wf_nodes(), pre.wf_estore(), pre.wf_name_store(),
+        post.wf_nodes(),
+        post.edges_map@ == pre.edges_map@,
+        post.edges@ == pre.edges@,
+        post.specs == pre.specs,
+        // add_node's contract: a node is replaced in place (same name) or appended
+        post.n() >= pre.n(),
+        forall|i: int| 0 <= i < pre.n() ==> (#[trigger] post.nodes_vec@[i]).name == pre.nodes_vec@[i].name,
+    ensures
+        post.wf_name_store(),
+{
+    assert forall|u: usize, v: usize| #[trigger] post.has_pair(u, v) == pre.has_pair(u, v) by {}
+    assert forall|u: usize, v: usize| u < pre.n() && v < pre.n() implies #[trigger] post.form_key(u, v) == pre.form_key(u, v) by {
+        assert(post.nodes_vec@[u as int].name == pre.nodes_vec@[u as int].name);
+        assert(post.nodes_vec@[v as int].name == pre.nodes_vec@[v as int].name);
+    }
+    assert forall|u: usize, v: usize| #[trigger] post.has_pair(u, v) implies ({
+            &&& forall|j: int| 0 <= j < post.pair_list(u, v).len() ==>
+                    ((#[trigger] post.pair_list(u, v)[j]).u, post.pair_list(u, v)[j].v) == post.form_key(u, v)
+            &&& post.edges@.contains_key(post.form_key(u, v))
+            &&& post.name_list(post.form_key(u, v)) == post.pair_list(u, v)
+        }) by {
+        assert(pre.has_pair(u, v));
+        assert(u < pre.n() && v < pre.n());
+        assert(post.form_key(u, v) == pre.form_key(u, v));
+    }
+    assert forall|k: (T, T)| #[trigger] post.edges@.contains_key(k) implies ({
+            &&& post.knows(k.0) && post.knows(k.1)
+            &&& post.linked(post.pos(k.0), post.pos(k.1))
+            &&& post.form_key(post.canon(post.pos(k.0), post.pos(k.1)).0, post.canon(post.pos(k.0), post.pos(k.1)).1) == k
+        }) by {
+        assert(pre.edges@.contains_key(k));
+        let p0 = pre.pos(k.0);
+        let p1 = pre.pos(k.1);
+        assert(pre.nodes_vec@[p0 as int].name == k.0 && pre.nodes_vec@[p1 as int].name == k.1);
+        assert(post.nodes_vec@[p0 as int].name == k.0 && post.nodes_vec@[p1 as int].name == k.1);
+        assert(post.nodes_map@[post.nodes_vec@[p0 as int].name] == p0);
+        assert(post.nodes_map@[post.nodes_vec@[p1 as int].name] == p1);
+        let cc = pre.canon(p0, p1);
+        assert(pre.has_pair(cc.0, cc.1));
+        assert(cc.0 < pre.n() && cc.1 < pre.n());
+        assert(post.form_key(cc.0, cc.1) == pre.form_key(cc.0, cc.1));
+    }
+}
+
+// [C02.coherence.name_store_empty_graph]
+pub proof fn lemma_name_store_empty<T: Eq + PartialOrd + Send + Sync, A: Clone>(g: Graph<T, A>)
+    requires
+        g.edges_map@.len() == 0,
+        g.edges@.len() == 0,
+    ensures
+        g.wf_name_store(),
+{
+    assert forall|u: usize, v: usize| !#[trigger] g.has_pair(u, v) by {
+        if g.edges_map@.contains_key(u) { assert(g.edges_map@.dom().contains(u)); }
+    }
+    assert forall|k: (T, T)| !#[trigger] g.edges@.contains_key(k) by {
+        if g.edges@.contains_key(k) { assert(g.edges@.dom().contains(k)); }
+    }
+}
+
+// [C02.coherence.name_store_holds_after_every_batch]
+pub proof fn lemma_name_store_along_history<T: Eq + PartialOrd + Send + Sync, A: Clone>(pre: Graph<T, A>, es: Seq<Edge<T, A>>, h: Seq<Graph<T, A>>, k: int, cur: Graph<T, A>)
+    requires
+        pre.wf_nodes(), pre.wf_estore(), pre.wf_name_store(),
+        name_order_total::<T>(),
+        prefix_applied(pre, es, h, k, cur),
+    ensures
+        cur.wf_nodes(), cur.wf_estore(), cur.wf_name_store(),
+    decreases k
+{
+    if k > 0 {
+        let prev = h[k - 1];
+        assert(prefix_applied(pre, es, h.subrange(0, k), k - 1, prev)) by {
+            let h2 = h.subrange(0, k);
+            assert(h2[0] == h[0]);
+            assert forall|j: int| 0 <= j < k - 1 implies add_edge_rel(h2[j], es[j], #[trigger] h2[j + 1], Ok(())) by {
+                assert(h2[j] == h[j] && h2[j + 1] == h[j + 1]);
+            }
+        }
+        lemma_name_store_along_history(pre, es, h.subrange(0, k), k - 1, prev);
+        assert(add_edge_rel(h[k - 1], es[k - 1], h[k - 1 + 1], Ok(())));
+        lemma_name_store_preserved_by_add_edge(prev, es[k - 1], cur, Ok(()));
+    }
+}
